@@ -155,6 +155,21 @@ partial def evalV (st : Store) (rd : Nat → Rat) (e : SE) : Except String (VExp
   | .list [.atom "maxrows", m] => do return .rowFold (← evalM st rd m) rmax id
   | .list [.atom "mincols", m] => do return .rowFold (.trans (← evalM st rd m)) rmin id
   | .list [.atom "tovec", m] => do return .linear (← evalM st rd m)
+  -- `red(as_rows(M))` / `red(as_columns(M))` for every row-wise reduction of matrix_expression.hpp
+  | .list [.atom "fold", .atom red, .atom dir, m] => do
+    let m0 ← evalM st rd m
+    let m1 ← match dir with
+      | "rows" => pure m0
+      | "cols" => pure (MExp.trans m0)
+      | _ => .error s!"fold direction {dir}"
+    match red with
+    | "sum" => return .rowFold m1 (· + ·) id
+    | "max" => return .rowFold m1 rmax id
+    | "min" => return .rowFold m1 rmin id
+    | "norm_1" => return .rowFold (.unary m1 rabs) (· + ·) id
+    | "norm_sqr" => return .rowFold (.unary m1 (fun x => x * x)) (· + ·) id
+    | "norm_inf" => return .rowFold (.unary m1 rabs) rmax id
+    | _ => .error s!"fold {red}"
   | e => .error s!"vector expression? {e.toStr}"
 
 partial def evalM (st : Store) (rd : Nat → Rat) (e : SE) : Except String (MExp Rat) :=
@@ -194,6 +209,19 @@ partial def evalM (st : Store) (rd : Nat → Rat) (e : SE) : Except String (MExp
   | .list [.atom "diagm", v] => do return .diagm (← evalV st rd v)
   | .list [.atom "concatr", a, b] => do return .concat (← evalM st rd a) (← evalM st rd b) true
   | .list [.atom "concatb", a, b] => do return .concat (← evalM st rd a) (← evalM st rd b) false
+  -- `to_triangular(M, tag)` as used by `triangular_prod<tag>(M, .)`: the other triangle reads as 0,
+  -- the diagonal of the unit variants as 1
+  | .list [.atom "tri", .atom kind, m] => do
+    let m0 ← evalM st rd m
+    let (upper, unit) ← match kind with
+      | "lower" => pure (false, false)
+      | "upper" => pure (true, false)
+      | "unit_lower" => pure (false, true)
+      | "unit_upper" => pure (true, true)
+      | _ => .error s!"triangular {kind}"
+    return .lit m0.size1 m0.size2 fun i j =>
+      if i = j then (if unit then 1 else m0.get i j)
+      else if (upper ∧ i < j) ∨ (¬ upper ∧ j < i) then m0.get i j else 0
   | .list [.atom "tomat", v, n1, n2] => do
     let (some n1, some n2) := (nat? n1, nat? n2) | .error "tomat"
     return .ofVec (← evalV st rd v) n1 n2
@@ -280,6 +308,13 @@ def doRed (st : Store) (kind : String) (args : List SE) : Except String String :
   | "mmin", [e] => return opt (foldMin (← evalM st rd e).toRows.flatten)
   | "trace", [e] => return showRat (← evalM st rd e).trace
   | "mnorm_sqr", [e] => return showRat (MExp.unary (← evalM st rd e) (fun x => x * x)).sum
+  | "frobenius_prod", [a, b] =>
+    return showRat (MExp.binary (← evalM st rd a) (← evalM st rd b) (· * ·)).sum
+  -- matrix norms: norm_1 = max column sum of |.|, norm_inf = max row sum of |.|
+  | "mnorm_1", [e] =>
+    return opt (foldMax (VExp.rowFold (.unary (.trans (← evalM st rd e)) rabs) (· + ·) id).toList)
+  | "mnorm_inf", [e] =>
+    return opt (foldMax (VExp.rowFold (.unary (← evalM st rd e) rabs) (· + ·) id).toList)
   | _, _ => .error s!"reduction {kind}"
 
 def step (st : Store) (line : String) : Store × String :=
